@@ -84,7 +84,7 @@ impl<'a> WriteToHeader for Item<'a> {
 /// Materialised payload bytes of a value (empty for values without a blob).
 pub fn blob_bytes(v: &Val) -> Vec<u8> {
     match v {
-        Val::Bytes(b) | Val::TlvStruct(_, b) | Val::TlvTuple(_, b) | Val::TlvTupleType(_, b) | Val::Section(b) | Val::SectionAdv(b, _) => b.bytes(),
+        Val::Bytes(b) | Val::TlvStruct(_, b) | Val::TlvOwned(_, b) | Val::TlvTuple(_, b) | Val::TlvTupleType(_, b) | Val::Section(b) | Val::SectionAdv(b, _) => b.bytes(),
         _ => Vec::new(),
     }
 }
@@ -106,6 +106,7 @@ pub fn item<'a>(v: &Val, bytes: &'a [u8]) -> Item<'a> {
         Val::Bytes(_) => Item::Bytes(bytes),
         Val::Addr(a) => Item::Addr(to_addresses(a)),
         Val::TlvStruct(k, _) => Item::Tlv(v2::TypeLengthValue::new(*k, bytes)),
+        Val::TlvOwned(k, _) => Item::Tlv(v2::TypeLengthValue::new(*k, bytes).to_owned()),
         Val::TlvTuple(k, _) => Item::Tuple(*k, bytes),
         Val::TlvTupleType(t, _) => Item::TupleT(TYPES[*t], bytes),
         Val::Section(_) => Item::Section(v2::TypeLengthValues::from(bytes)),
@@ -142,6 +143,7 @@ fn write_val(b: Builder, v: &Val) -> io::Result<Builder> {
         Val::Bytes(_) => b.write_payload(bytes.as_slice()),
         Val::Addr(a) => b.write_payload(to_addresses(a)),
         Val::TlvStruct(k, _) => b.write_payload(v2::TypeLengthValue::new(*k, bytes.as_slice())),
+        Val::TlvOwned(k, _) => b.write_payload(v2::TypeLengthValue::new(*k, bytes.as_slice()).to_owned()),
         Val::TlvTuple(k, _) => b.write_payload((*k, bytes.as_slice())),
         Val::TlvTupleType(t, _) => b.write_payload((TYPES[*t], bytes.as_slice())),
         Val::Section(_) => b.write_payload(v2::TypeLengthValues::from(bytes.as_slice())),
@@ -201,7 +203,27 @@ pub fn construct(ctor: &Ctor, variant: u64) -> Builder {
             };
             Builder::new(vc_byte(*vc, variant), fpb)
         }
-        Ctor::WithAddr(vc, tr, addr) => Builder::with_addresses(vc_byte(*vc, variant), crate::adapt::tr_of(*tr), to_addresses(addr)),
+        Ctor::WithAddr(vc, tr, addr) => {
+            // with_addresses takes anything that converts into Addresses: for IP families every
+            // third variant hands over a pair of socket addresses instead of the value
+            let vcb = vc_byte(*vc, variant);
+            let pr = crate::adapt::tr_of(*tr);
+            match addr {
+                Addr::V4 { src, dst, sp, dp } if variant % 3 == 2 => {
+                    let s = std::net::SocketAddr::from((std::net::Ipv4Addr::from(*src), *sp));
+                    let d = std::net::SocketAddr::from((std::net::Ipv4Addr::from(*dst), *dp));
+                    Builder::with_addresses(vcb, pr, (s, d))
+                }
+                Addr::V6 { src, dst, sp, dp } if variant % 3 == 2 => {
+                    let s = std::net::SocketAddr::from((std::net::Ipv6Addr::from(*src), *sp));
+                    let d = std::net::SocketAddr::from((std::net::Ipv6Addr::from(*dst), *dp));
+                    Builder::with_addresses(vcb, pr, (s, d))
+                }
+                Addr::V4 { src, dst, sp, dp } if variant % 3 == 1 => Builder::with_addresses(vcb, pr, v2::IPv4::new(*src, *dst, *sp, *dp)),
+                Addr::V6 { src, dst, sp, dp } if variant % 3 == 1 => Builder::with_addresses(vcb, pr, v2::IPv6::new(*src, *dst, *sp, *dp)),
+                _ => Builder::with_addresses(vcb, pr, to_addresses(addr)),
+            }
+        }
     }
 }
 
@@ -242,6 +264,15 @@ fn observe(_b: &Builder) -> Option<Observed> {
 /// Runs the history. `on_step(i, state)` is called after call `i` succeeded (when hooks are
 /// compiled in), `upto` limits the number of ops executed before `build` (for prefix builds).
 pub fn exec(h: &History, variant: u64, upto: usize, on_step: &mut dyn FnMut(usize, &Observed)) -> Exec {
+    exec_opt(h, variant, upto, true, on_step)
+}
+
+/// `exec` without the per-call state observation (which copies the buffer after every call).
+pub fn exec_plain(h: &History, variant: u64) -> Exec {
+    exec_opt(h, variant, usize::MAX, false, &mut |_, _| {})
+}
+
+fn exec_opt(h: &History, variant: u64, upto: usize, watch: bool, on_step: &mut dyn FnMut(usize, &Observed)) -> Exec {
     match guard(|| {
         let mut b = construct(&h.ctor, variant);
         for (i, op) in h.ops.iter().take(upto).enumerate() {
@@ -249,8 +280,10 @@ pub fn exec(h: &History, variant: u64, upto: usize, on_step: &mut dyn FnMut(usiz
                 Ok(b) => b,
                 Err(e) => return Exec::FailedAt(i, format!("{:?}", e.kind())),
             };
-            if let Some(st) = observe(&b) {
-                on_step(i, &st);
+            if watch {
+                if let Some(st) = observe(&b) {
+                    on_step(i, &st);
+                }
             }
         }
         match b.build() {
